@@ -1,5 +1,7 @@
 // drv_tecmp: C15 - TECMP messages convert to equivalent ASAM CMP packets (independent TECMP parse as oracle),
 // unsupported kinds / non-fitting inner lengths yield no packet. ASan + UBSan watch every conversion.
+#include <locale>
+
 #include <asam_cmp/decoder.h>
 #include <asam_cmp/tecmp_decoder.h>
 
@@ -334,7 +336,49 @@ void famLengths(Ctx& c, long j)
 }
 constexpr long kFamLengths = 9 + 65 + 9 + 41 + 38;
 
+// a process that has installed a global C++ locale with digit grouping and a decimal comma (as std::locale("") does on a
+// de_DE / en_US system): the conversion owes the decimal wire values all the same
+struct GroupingPunct : std::numpunct<char>
+{
+    char do_thousands_sep() const override
+    {
+        return ',';
+    }
+    std::string do_grouping() const override
+    {
+        return "\3";
+    }
+    char do_decimal_point() const override
+    {
+        return ';';
+    }
+};
+struct ScopedGlobalLocale
+{
+    std::locale old;
+    ScopedGlobalLocale()
+        : old(std::locale::global(std::locale(std::locale::classic(), new GroupingPunct)))
+    {
+    }
+    ~ScopedGlobalLocale()
+    {
+        std::locale::global(old);
+    }
+};
+
+void randomCaseInner(Ctx& c, long idx);
 void randomCase(Ctx& c, long idx)
+{
+    if (idx % 4 == 1)
+    {
+        ScopedGlobalLocale g;
+        c.count("cases_under_a_global_locale_with_digit_grouping");
+        randomCaseInner(c, idx);
+        return;
+    }
+    randomCaseInner(c, idx);
+}
+void randomCaseInner(Ctx& c, long idx)
 {
     Rng r = c.caseRng(idx);
     for (int i = 0; i < 10; ++i)
